@@ -417,6 +417,13 @@ package client
 //@ func (*Channel).acceptUpdate
 //@   requires chanOK(c) && ctx != nil && reqDecoded(req) && pidx < 2 && mach(c).idx != pidx
 //@   modifies mach(c).*, mach(c).prevTXs[*], c.parent.subChannelWithdrawals.entries[*]
+// (C06, responder side) success: the requested state is the current state, fully signed; failure: everything as before the call,
+// or - if only the persister failed - the update is already enabled, or left staged.
+//@   ensures old(curSigned(c)) && err == nil ==> mach(c).currentTX.State == old(reqState(req)) && curSigned(c) && mach(c).stagingTX.State == nil && (mach(c).phase == channel.Acting || mach(c).phase == channel.Final)
+//@   ensures old(curSigned(c)) && err != nil ==> curSigned(c) &&
+//@           ((sameTX(mach(c).currentTX, old(mach(c).currentTX)) && (mach(c).phase == old(mach(c).phase) || (old(mach(c).phase) == channel.Signing && mach(c).phase == channel.Acting))) ||
+//@            (mach(c).currentTX.State == old(reqState(req)) && mach(c).stagingTX.State == nil && (mach(c).phase == channel.Acting || mach(c).phase == channel.Final)) ||
+//@            (sameTX(mach(c).currentTX, old(mach(c).currentTX)) && mach(c).phase == channel.Signing && mach(c).stagingTX.State == old(reqState(req))))
 //@   callsite (*machine).Sig : m == old(mach(c)) && m.stagingTX.State == old(reqState(req)) && m.phase == channel.Signing &&
 //@     old(mach(c).phase == channel.Acting && validSuccSM(c.machine.StateMachine, reqState(req), reqActor(req))) &&
 //@     m.stagingTX.Sigs[pidx] == old(reqSig(req)) && peerSigOK(m, pidx, m.stagingTX.State, m.stagingTX.Sigs[pidx])
@@ -428,7 +435,7 @@ package client
 // the connection object is well-formed by construction (newChannelConn).
 //@ func (*channelConn).Send
 //@   trusted
-//@   requires c != nil && msg != nil
+//@   requires c != nil
 
 // Whether a channel is a sub-channel is a pure question about the (immutable) peer lists of it and its parent.
 //@ func (*Channel).IsSubChannel
@@ -503,3 +510,37 @@ package client
 //@ func (*Client).handleSyncMsg
 //@   requires c != nil && c.log != nil && syncDecoded(msg)
 //@   modifies *
+
+// ---------------------------------------------------------------------------
+// Update protocol, per party (C06): what each side's machine looks like when the protocol function returns.
+// ---------------------------------------------------------------------------
+
+// The response receiver yields the sender's index in the channel's peer list (two-party channel) and a non-nil message on success.
+//@ func (*channelMsgRecv).Next
+//@   trusted
+//@   requires r != nil
+//@   ensures result2 == nil ==> result0 < 2 && result1 != nil && (istype(result1, "*ChannelUpdateAccMsg") || istype(result1, "*ChannelUpdateRejMsg")) && payload(result1) != 0
+//@ func (*channelConn).NewUpdateResRecv
+//@   trusted
+//@   requires c != nil
+//@   ensures result1 == nil ==> result0 != nil && result0.Receiver != nil
+//@ func (*channelMsgRecv).Close
+//@   trusted
+
+// curSigned: the current transaction is fully signed (every slot filled and authenticated for the current state).
+//@ pred curSigned(c *Channel) = allSigned(mach(c), mach(c).currentTX.State, mach(c).currentTX.Sigs)
+
+// Proposer. Success: the proposed state is the current state, fully signed, and the machine is ready for the next update
+// (phase Acting, or Final for a final state). Any failure after staging discards the staged update: the current transaction
+// is the one from before the call (same state object, same signature list), nothing stays staged and the phase is Acting again.
+//@ func (*Channel).updateGeneric
+//@   requires chanOK(c) && ctx != nil && stateWF(next) && mach(c).phase == channel.Acting && mach(c).stagingTX.State == nil && curSigned(c) && prepareMsg != nil
+//@   modifies mach(c).*, mach(c).prevTXs[*]
+//@   ensures err == nil ==> mach(c).currentTX.State == next && curSigned(c) && mach(c).stagingTX.State == nil && (mach(c).phase == channel.Acting || mach(c).phase == channel.Final)
+//@   ensures err == nil ==> old(validSuccSM(c.machine.StateMachine, next, mach(c).idx))
+//@   ensures err != nil ==> curSigned(c) &&
+//@           ((sameTX(mach(c).currentTX, old(mach(c).currentTX)) && mach(c).phase == channel.Acting && mach(c).stagingTX.State == nil) ||
+//@            (mach(c).currentTX.State == next && mach(c).stagingTX.State == nil && (mach(c).phase == channel.Acting || mach(c).phase == channel.Final)) ||
+//@            (sameTX(mach(c).currentTX, old(mach(c).currentTX)) && mach(c).phase == channel.Signing && mach(c).stagingTX.State == next))
+// (second case: the persister failed after the update was enabled; third case: the persister failed while staging - the function
+// returns before its discard handler is installed and leaves the update staged)
